@@ -147,6 +147,7 @@ type reframe13 struct {
 	Rng    *kit.Rng
 	Rate   int // 1/Rate of the records are re-framed
 	KeyUpdates int // number of KeyUpdate messages the harness may still inject
+	Tickets    int // server direction: number of times the harness may still inject a flight of NewSessionTicket messages
 
 	in, out *rec13
 	buf     []byte
@@ -243,6 +244,37 @@ func (f *reframe13) emit(typ byte, content []byte) []byte {
 		if req == 1 {
 			f.fire("reframe.key_update_requested")
 		}
+	}
+	if typ == recAppData && f.Tickets > 0 && f.Label == "SERVER_TRAFFIC_SECRET_0" && r.Chance(1, 2) {
+		// Several post-handshake messages in one record (RFC 8446 5.1 allows coalescing; servers that issue two
+		// tickets at once do it), optionally with the last message continued in a second record. The tickets are
+		// opaque to the client: fabricated ones are as good as real ones (RFC 8446 4.6.1).
+		f.Tickets--
+		var flight []byte
+		for k := r.Range(2, 3); k > 0; k-- {
+			var b []byte
+			b = append(b, 0, 0, byte(r.Intn(256)), byte(r.Intn(256))) // ticket_lifetime
+			b = append(b, r.Bytes(4)...)                                // ticket_age_add
+			nonce := r.Bytes(r.Intn(9))
+			b = append(b, byte(len(nonce)))
+			b = append(b, nonce...)
+			tk := r.Bytes(16 + r.Intn(120))
+			b = append(b, byte(len(tk)>>8), byte(len(tk)))
+			b = append(b, tk...)
+			b = append(b, 0, 0) // no extensions
+			flight = append(flight, 4, byte(len(b)>>16), byte(len(b)>>8), byte(len(b)))
+			flight = append(flight, b...)
+		}
+		if r.Chance(1, 3) {
+			k := 1 + r.Intn(len(flight)-1)
+			out = append(out, f.out.seal(recHandshake, flight[:k], 0)...)
+			out = append(out, f.out.seal(recHandshake, flight[k:], 0)...)
+			f.fire("reframe.ticket_flight_fragmented")
+		} else {
+			out = append(out, f.out.seal(recHandshake, flight, 0)...)
+		}
+		f.useless++
+		f.fire("reframe.coalesced_tickets")
 	}
 	if typ == recAppData {
 		for k := r.Pick([]int{3, 3, 1, 1}); k > 0 && f.useless < 6; k-- {
